@@ -4,7 +4,7 @@
 From Coq Require Import ZArith List Bool String.
 From Coq Require Extraction.
 From Coq Require Import ExtrOcamlBasic ExtrOcamlString.
-From HV Require Import Base.Word Spec.Evm Gen.GenJumpi Model.SymExec.
+From HV Require Import Base.Word Spec.Evm Gen.GenJumpi Model.SymExec Model.SymCalls.
 Import ListNotations.
 Open Scope Z_scope.
 
@@ -75,6 +75,62 @@ Definition sym_run (inp : list Z) : list Z :=
   [if logged then 1 else 0; Z.of_nat (List.length leaves); Z.of_nat (List.length sat)]
   ++ flat_map (enc_leaf rho) sat.
 
-Definition table : list (string * (list Z -> list Z)) := [ ("sym_run"%string, sym_run) ].
+(* ---- the same for the model with calls and creations ---- *)
+Fixpoint parse_codes (n : nat) (l : list Z) : list (Z * list Z) * list Z :=
+  match n with
+  | O => ([], l)
+  | S k =>
+      let '(a, l) := pop1 l in
+      let '(cl, l) := pop1 l in
+      let '(code, l) := popn cl l in
+      let '(rest, l') := parse_codes k l in
+      ((a, code) :: rest, l')
+  end.
+
+Definition special_addr (a : Z) : bool :=
+  (a =? 645326474426547203313410069153905908525362434349)      (* hevm cheatcode address *)
+  || (a =? 1390701857259574547118865050343858777485928729545)  (* svm cheatcode address *)
+  || (a =? 120209876281281145568259943).                       (* console.log *)
+
+Definition enc_leaf2 (rho : var -> Z) (l : leaf2) : list Z :=
+  match l2_kind l with
+  | K2Ok ret w ctr => [0; ctr] ++ enc_bytes rho ret
+  | K2Revert ret ctr => [1; ctr] ++ enc_bytes rho ret
+  | K2Halt k ctr => [2; k]
+  | K2Stuck w => [3; w]
+  | K2Fuel => [4; 0]
+  | K2Early => [5; 0]
+  end.
+
+Definition sym_run2 (inp : list Z) : list Z :=
+  let '(lim, l) := pop1 inp in
+  let '(fuel, l) := pop1 l in
+  let '(loop, l) := pop1 l in
+  let '(this, l) := pop1 l in
+  let '(static, l) := pop1 l in
+  let '(nacc, l) := pop1 l in
+  let '(codes, l) := parse_codes (Z.to_nat nacc) l in
+  let '(nd, l) := pop1 l in let '(data, l) := popn nd l in
+  let '(caller, l) := pop1 l in
+  let '(origin, l) := pop1 l in
+  let '(value, l) := pop1 l in
+  let '(na, l) := pop1 l in let '(args, l) := popn na l in
+  let '(nb, l) := pop1 l in let '(bals, l) := parse_pairs (Z.to_nat nb) l in
+  let blk := mkBlock 0 31337 0 0 (2 ^ 63 - 1) 1 1 in
+  let w := mkSW codes [] [] [] in
+  let fr := mkFrame this (sw_get_code w this) (TVar VCaller) (TVar VOrigin) (TVar VValue) (map data_item data)
+                    (negb (static =? 0)) 1 blk in
+  let rho := fun v =>
+    match v with
+    | VCaller => caller | VOrigin => origin | VValue => value
+    | VArg i => nth i args 0
+    | VBal a => match alookup a bals with Some b => b | None => 0 end
+    end in
+  let '(leaves, logged) := sexec2 lim special_addr oracle_unknown loop (Z.to_nat fuel) fr w 0 init_sstate in
+  let sat := filter (fun lf => forallb (holdsb rho) (l2_path lf)) leaves in
+  [if logged then 1 else 0; Z.of_nat (List.length leaves); Z.of_nat (List.length sat)]
+  ++ flat_map (enc_leaf2 rho) sat.
+
+Definition table : list (string * (list Z -> list Z)) := [ ("sym_run"%string, sym_run); ("sym_run2"%string, sym_run2) ].
 
 Extraction "_build/SYM/entries.ml" table.
